@@ -183,7 +183,11 @@ func stdSeqHasSuffix(_ context.Context, suffix, subject rel.Value) (rel.Value, e
 }
 
 func stdSeqRepeat(_ context.Context, arg rel.Value) (rel.Value, error) {
-	n := int(arg.(rel.Number))
+	count, is := arg.(rel.Number)
+	if !is || count < 0 {
+		return nil, fmt.Errorf("//seq.repeat: count not a non-negative number: %v", arg)
+	}
+	n := int(count)
 	return rel.NewNativeFunction("repeat(n)", func(_ context.Context, arg rel.Value) (rel.Value, error) {
 		switch seq := arg.(type) {
 		case rel.String:
